@@ -251,3 +251,6 @@ V("C16", "C++: negative offsets first", "R16.3", (GCP, "        for (int j=0; j 
 V("C16", "C++: offset factors of b and c swapped", "R16.3", (GCP, "                    factors_mu(index, 1) = b_multiplier;\n                    factors_mu(index, 2) = c_multiplier;", "                    factors_mu(index, 1) = c_multiplier;\n                    factors_mu(index, 2) = b_multiplier;"))
 V("C16", "C++: lower clamp missing in the position query", "R16.4", (CEL, "    int istart = max(i0-1, 0);\n    int iend = min(i0+1, this->nx-1);", "    int istart = i0-1;\n    int iend = min(i0+1, this->nx-1);"))
 V("C16", "python passes cell and pbc swapped", "R16.4", (GEO, "        system.get_cell(),\n        system.get_pbc(),\n        cutoff,\n    )\n\n    return extended_system", "        system.get_pbc(),\n        system.get_cell(),\n        cutoff,\n    )\n\n    return extended_system"))
+
+V("C10", "distance matrices swapped in the Distances record", "R10.5", (GEO, "        dist_matrix_mic,\n        dist_matrix_radii_mic,\n    )", "        dist_matrix_radii_mic,\n        dist_matrix_mic,\n    )"))
+V("C10", "radii-corrected matrix aliases the raw one", "R10.5", (GEO, "dist_matrix_radii_mic = np.array(dist_matrix_mic)", "dist_matrix_radii_mic = dist_matrix_mic"))
